@@ -1066,6 +1066,22 @@ func appKeeperArg(module, ctor, param string) string {
 	return res
 }
 
+// namedFuncShape: the alpha-normalised statements of a top-level function of a file.
+func namedFuncShape(rel, name string) FuncShape {
+	path := filepath.Join(repoRoot, rel)
+	fs := FuncShape{Name: name, File: rel, Stmts: []string{"<not found>"}}
+	f, err := parseFile(path)
+	if err != nil {
+		return fs
+	}
+	for _, decl := range f.Decls {
+		if d, ok := decl.(*ast.FuncDecl); ok && d.Body != nil && d.Recv == nil && d.Name.Name == name {
+			return funcShape(d, path)
+		}
+	}
+	return fs
+}
+
 // exchangePaths: the MsgServer endpoints of x/exchange/keeper/msg_server.go and the keeper functions
 // that carry their own identity / permission checks.
 func exchangePaths() ([]HandlerPaths, error) {
